@@ -1,6 +1,7 @@
 import ClaripyProofs.Lemmas.FP.FoldD2
 import ClaripyProofs.Lemmas.FP.RoundModes
 import ClaripyProofs.Lemmas.FP.FoldF
+import ClaripyProofs.Lemmas.FP.IntConv
 /-!
 # C02 — IEEE-754 meaning of floating-point folding in every rounding mode
 
@@ -158,6 +159,13 @@ theorem to_bv_spec_float (rm : RM) (a w v : Nat) :
 /-- DOUBLE → FLOAT under RNE is the single `struct.pack('f')` rounding -/
 theorem fold_narrow_rne (a : Nat) (ha : a < 2 ^ 64) (hn : isNaN D a = false) : fpToFP_fp D F .RNE a = cvt D F .RNE a := by
   unfold fpToFP_fp lower narrow; rw [if_pos rfl, lift_D_notnan a ha hn]
+
+/-- integer → DOUBLE under RNE (bit-vectors of up to 1023 bits): `float(int)` is the specification's `to_fp` /
+`to_fp_unsigned`, finite in every case (no OverflowError); `fpToFP(rm, bv, DOUBLE)` wraps exactly this value -/
+theorem fold_int_to_double_rne (w v : Nat) (hw : w ≤ 1023) :
+    pyFloatOfInt false (v % 2 ^ w) = some (ofUBV D .RNE w v) ∧
+    (if v % 2 ^ w ≥ 2 ^ (w - 1) then pyFloatOfInt true (2 ^ w - v % 2 ^ w) else pyFloatOfInt false (v % 2 ^ w))
+      = some (ofSBV D .RNE w v) := int_to_double_rne w v hw
 
 /-! ### the two cancellation rewrites of simplifications.py -/
 
